@@ -23,6 +23,18 @@ impl WorkerResources {
         Self { n_resources }
     }
 
+    /// Resources of the same shape with all amounts set to zero
+    pub(crate) fn zeroed(&self) -> Self {
+        Self {
+            n_resources: self
+                .n_resources
+                .iter()
+                .map(|_| ResourceAmount::ZERO)
+                .collect::<Vec<_>>()
+                .into(),
+        }
+    }
+
     pub(crate) fn get(&self, resource_id: ResourceId) -> ResourceAmount {
         self.n_resources
             .get(resource_id)
@@ -161,6 +173,48 @@ impl WorkerResources {
             } else {
                 self.n_resources[entry.resource_id] = ResourceAmount::ZERO;
             }
+        }
+    }
+
+    /// Removes `rq` from the resources. An amount that is not available is remembered in
+    /// `debt` (a worker may start a prefilled task on resources that the scheduler has
+    /// already given to another task; the worker is then overbooked until it rejects one of them).
+    pub fn remove_with_debt(
+        &mut self,
+        rq: &ResourceRequest,
+        all: &WorkerResources,
+        debt: &mut WorkerResources,
+    ) {
+        for entry in rq.entries() {
+            let free = self.n_resources[entry.resource_id];
+            let amount = entry
+                .request
+                .amount_or_none_if_all()
+                .unwrap_or_else(|| all.get(entry.resource_id));
+            if amount > free {
+                debt.n_resources[entry.resource_id] += amount - free;
+                self.n_resources[entry.resource_id] = ResourceAmount::ZERO;
+            } else {
+                self.n_resources[entry.resource_id] = free - amount;
+            }
+        }
+    }
+
+    /// Returns `rq` to the resources, the debt of an overbooked worker is paid first.
+    pub fn add_with_debt(
+        &mut self,
+        rq: &ResourceRequest,
+        all: &WorkerResources,
+        debt: &mut WorkerResources,
+    ) {
+        for entry in rq.entries() {
+            let amount = entry
+                .request
+                .amount_or_none_if_all()
+                .unwrap_or_else(|| all.get(entry.resource_id));
+            let paid = amount.min(debt.n_resources[entry.resource_id]);
+            debt.n_resources[entry.resource_id] -= paid;
+            self.n_resources[entry.resource_id] += amount - paid;
         }
     }
 
